@@ -107,6 +107,8 @@ pub struct Cb {
     pub token: [u8; 4],
     pub bad_draws: u32,
     pub draws: u32,
+    /// fault injection: the send callback reports an error (nothing is sent)
+    pub fail_sends: bool,
 }
 impl Cb {
     fn draw(&mut self, buffer: &mut [u8]) {
@@ -133,6 +135,9 @@ impl c6::Callback for Cb {
         self.draw(buffer)
     }
     fn send(&mut self, buffer: &[u8]) -> Result<(), Never> {
+        if self.fail_sends {
+            return Err(Never);
+        }
         self.out.push(buffer.to_vec());
         Ok(())
     }
@@ -146,6 +151,9 @@ impl c7::Callback for Cb {
         self.draw(buffer)
     }
     fn send(&mut self, buffer: &[u8]) -> Result<(), Never> {
+        if self.fail_sends {
+            return Err(Never);
+        }
         self.out.push(buffer.to_vec());
         Ok(())
     }
